@@ -348,3 +348,17 @@ func knownClassOf(u *MURL, sh shape) string {
 	}
 	return ""
 }
+
+// mayReject marks accepted-by-the-model inputs that a repaired parser may
+// legitimately refuse: an explicit port field of value zero (zero is not a
+// port; it is also the "no port" value of the URL message) and a Docker URL
+// with an explicitly empty user ("docker://@...").
+func mayReject(u *MURL, sh shape) bool {
+	switch sh.proto {
+	case "ssh":
+		return sh.portField && u.Port == 0
+	case "docker":
+		return strings.HasPrefix(sh.dockerHead, "@")
+	}
+	return false
+}
